@@ -464,6 +464,60 @@ func (g *Gen) RefScenario() []AOp {
 	return ops
 }
 
+// NameScenario: a named uuid in the less usual positions of one transaction - key of a map in an insert, then a
+// set of keys (or one bare key) in a delete mutation of that map, then a condition on the map.
+func (g *Gen) NameScenario() []AOp {
+	type cand struct{ t, col, target string }
+	var cands []cand
+	for _, t := range g.tableNames() {
+		for _, cn := range g.S.Tables[t].ColNames() {
+			c := g.S.Tables[t].Cols[cn]
+			if KindOf(c) == "map" && c.Key.T == "uuid" && c.Min == 0 && c.Max < 0 && c.Mut && (c.Val.T == "string" || c.Val.T == "integer") {
+				cands = append(cands, cand{t, cn, c.Key.Ref})
+			}
+		}
+	}
+	if len(cands) == 0 {
+		return nil
+	}
+	c := cands[g.pick(len(cands))]
+	col := g.S.Tables[c.t].Cols[c.col]
+	val := func() interface{} {
+		if col.Val.T == "integer" {
+			return 1 + g.pick(3)
+		}
+		return "v"
+	}
+	name := fmt.Sprintf("@s%d", g.next)
+	var ops []AOp
+	target := c.target
+	if target == "" {
+		// a plain uuid key: any named insert will do
+		target = c.t
+	}
+	named := g.fresh()
+	nrow := g.MarkerRow(target, fmt.Sprintf("q%d", g.next), g.next)
+	if target == c.t {
+		// the named row is the holder itself: it refers to itself by name
+		nrow[c.col] = []interface{}{[]interface{}{name, val()}}
+		ops = append(ops, AOp{Op: "insert", Table: c.t, UUID: named, UUIDName: name, Row: nrow})
+	} else {
+		ops = append(ops, AOp{Op: "insert", Table: target, UUID: named, UUIDName: name, Row: nrow})
+		holder := g.fresh()
+		hrow := g.MarkerRow(c.t, fmt.Sprintf("h%d", g.next), g.next)
+		hrow[c.col] = []interface{}{[]interface{}{name, val()}}
+		ops = append(ops, AOp{Op: "insert", Table: c.t, UUID: holder, Row: hrow})
+		named = holder
+	}
+	ops = append(ops, AOp{Op: "mutate", Table: c.t, Where: byUUID(named), Mutations: [][]interface{}{{c.col, "delete", []interface{}{name}, "keys"}}})
+	ops = append(ops, AOp{Op: "select", Table: c.t, Where: byUUID(named)})
+	for i := range ops {
+		ops[i].Normalize()
+	}
+	g.count("named-map-key-delete")
+	return ops
+}
+
 // Txn generates one transaction.
 func (g *Gen) Txn() []AOp {
 	if len(g.queue) > 0 {
@@ -473,6 +527,11 @@ func (g *Gen) Txn() []AOp {
 	}
 	if g.chance(0.12 * g.P.Refs) {
 		if ops := g.RefScenario(); ops != nil {
+			return ops
+		}
+	}
+	if g.chance(0.15 * g.P.Names) {
+		if ops := g.NameScenario(); ops != nil {
 			return ops
 		}
 	}
@@ -968,11 +1027,56 @@ func (g *Gen) Scenario() []AOp {
 		}
 		return ops
 	}
-	kind := g.pick(4)
+	kind := g.pick(5)
 	if v := os.Getenv("VERIF_SCENARIO"); v != "" {
 		kind, _ = strconv.Atoi(v) // debugging aid: one kind of scenario only
 	}
 	switch kind {
+	case 4: // two indexes: a row gives up its value in the first; its value in the second is still taken
+		var ts []string
+		for _, tn := range g.tableNames() {
+			tb := g.S.Tables[tn]
+			if len(tb.Indexes) < 2 || len(g.St[tn]) < 1 || !g.rootSemantics()(tn) {
+				continue
+			}
+			ok := true
+			for _, ix := range tb.Indexes[:2] {
+				for _, cn := range ix {
+					c := tb.Cols[cn]
+					if !c.Mut || KindOf(c) != "atom" || !(c.Key.T == "string" && len(c.Key.Enum) == 0 || c.Key.T == "integer") {
+						ok = false
+					}
+				}
+			}
+			if ok {
+				ts = append(ts, tn)
+			}
+		}
+		if len(ts) == 0 {
+			return nil
+		}
+		t := ts[g.pick(len(ts))]
+		tb := g.S.Tables[t]
+		us := g.uuidsOf(t)
+		a := us[g.pick(len(us))]
+		moved := g.MarkerRow(t, fmt.Sprintf("w%d", g.next), g.next)
+		g.next++
+		first := map[string]interface{}{}
+		for _, cn := range tb.Indexes[0] {
+			first[cn] = moved[cn]
+		}
+		// afterwards: another row asks for the value the row still holds in the second index
+		b := g.MarkerRow(t, fmt.Sprintf("v%d", g.next), g.next)
+		for _, cn := range tb.Indexes[1] {
+			b[cn] = g.St[t][a][cn]
+		}
+		later := []AOp{{Op: "insert", Table: t, UUID: g.fresh(), Row: b}}
+		for i := range later {
+			later[i].Normalize()
+		}
+		g.queue = append(g.queue, later)
+		g.count("second-index")
+		return norm([]AOp{{Op: "update", Table: t, Where: byUUID(a), Row: first}})
 	case 3: // several rows take one indexed value at once, then some move on: a duplicate remains unless all but one moved
 		// any table with an index whose columns are mutable and at least one of them a plain string or integer
 		var ts []string
